@@ -202,6 +202,7 @@ type EEOpts struct {
 	Subject []byte // raw subject DN override
 	RSA     int
 	NoSKI   bool // IssueWithKey: no subjectKeyIdentifier (what most CAs issue for end entities)
+	NoKeyUsage bool // IssueWithKey: no keyUsage extension at all (legal; such a key is not restricted by that extension)
 }
 
 var (
@@ -259,6 +260,9 @@ func (ca *CA) IssueWithKey(o EEOpts) (*x509.Certificate, crypto.Signer) {
 	}
 	if o.Subject != nil {
 		tmpl.RawSubject = o.Subject
+	}
+	if o.NoKeyUsage {
+		tmpl.KeyUsage = 0
 	}
 	if !o.NoSKI {
 		pk, _ := x509.MarshalPKIXPublicKey(key.Public())
